@@ -16,7 +16,58 @@ def sim_part(run, exe_unused, results, env):
              "sim_k2_wwrt": [P("L", "U", "L", "U"), P("L", "U", "R", "RU"), P("R", "RU", "L", "U"), P("T", "RT", "L", "U")]}
     fam = [(n, dict(progs=p, NV=1, K=K2, kthr=K2, _sim=(num, 700))) for n, p in progs.items()]
     run_family(run, exe2, "C02", fam, env=env, workers=4, parallel=2)
+    pool_part(run)
     run.cov["simulated_configurations"] = {"K": K2, "behaviours_per_worker": num, "workers": 4, "depth": 700}
+
+
+def pool_part(run):
+    """the waiter pool every slow path draws from (common.c nsync_waiter_new_/free_/waiter_destroy + its spinlock), which the Mu.tla
+    harness runs atomically: Pool.tla, every transition replayed on the real functions at the granularity of the spinlock's operations"""
+    import shutil
+    exe = build("h_pool")
+    d = os.path.join(WORK, "pool"); os.makedirs(d, exist_ok=True)
+    shutil.copy(os.path.join(SPEC, "Pool.tla"), d)
+    N, F = "new", "free"
+    cfgs = [("p2", [[N, F], [N, F]], 4), ("p2n", [[N, N, F, F], [N, F, N, F]], 6), ("p3", [[N, F], [N, F], [N, F]], 6)]
+    if run.tier == "thorough":
+        cfgs += [("p3n", [[N, F], [N, N, F, F], [N, F]], 6), ("p2x", [[N, F, N, N, F, F], [N, N, F, N, F, F]], 6)]
+    wanted = {"Exclusive", "FreeIsFree", "NoDuplicates", "OneSlotEach", "NoLoss", "NoStuck"}
+    for name, progs, maxw in cfgs:
+        open(os.path.join(d, "MC_%s.tla" % name), "w").write("---- MODULE MC_%s ----\nEXTENDS Pool\nMCProg == %s\n====\n" % (name, muconf.tla_val(progs)))
+        cfg = os.path.join(d, "MC_%s.cfg" % name)
+        open(cfg, "w").write("SPECIFICATION SpecU\nCONSTANTS\n N = %d\n Prog <- MCProg\n MaxW = %d\n defaultInitValue = 0\nCONSTRAINT InitPrint\nACTION_CONSTRAINT Edge\nCHECK_DEADLOCK FALSE\n" % (len(progs), maxw))
+        g, info = tlcgraph.run_tlc_graph(os.path.join(d, "MC_%s.tla" % name), cfg, workers=4, cwd=d)
+        if not info["ok"]:
+            raise ToolFailure("TLC failed on Pool/%s: %s" % (name, "\n".join(info["log"][-30:])))
+        tours = tlcgraph.build_tours(g)
+        sched = os.path.join(d, "%s.sched" % name)
+        init = "harness=h_pool MaxW=%d progs=%s" % (maxw, ";".join("".join(o[0] for o in p) for p in progs))
+        steps = tlcgraph.write_schedule(sched, g, tours, init, obs_fmt=tlcgraph.fmt_obs_noghost)
+        res = run_harness(exe, ["replay", sched, REPLAYS], env={"VERIF_PROP": "C02"})
+        st = res["stats"]
+        run.add("states", info["distinct"]); run.add("transitions", len(g.edges)); run.add("traces_validated_against_impl", st.get("matched", 0))
+        run.add("evaluations", st.get("tours", 0)); run.add("distinct_nontrivial", st.get("nontrivial", 0)); run.add("transitions_replayed", steps)
+        run.cov.setdefault("configs", []).append({"name": "Pool/" + name, "states": info["distinct"], "transitions": len(g.edges), "tours": len(tours),
+                                                  "matched": st.get("matched", 0), "diverged": st.get("diverged", 0), "tlc_wall_s": round(info["wall"], 1), "tlc_verdict": "ok"})
+        if res["mismatch"]:
+            run.note("DIVERGENCE in Pool/%s (spec/code; not a violation by itself): %s" % (name, res["mismatch"]))
+            run.cov["conformant"] = False
+        for v in res["viols"]:
+            run.violation("%s|%s|Pool/%s" % (v[0], v[1], name), v[4], v[5])
+        for k, f in enumerate(tlcgraph.analyse(g)):
+            if f["name"] not in wanted:
+                continue
+            path = os.path.join(REPLAYS, "C02_pool_%s_%s_%d.sched" % (name, f["name"], k))
+            tlcgraph.write_schedule(path, g, [f["path"]], init, obs_fmt=tlcgraph.fmt_obs_noghost)
+            r2 = run_harness(exe, ["replay", path, REPLAYS], env={"VERIF_PROP": "C02"})
+            if r2["viols"] or r2["stats"].get("matched", 0) == 1:
+                run.violation("TLC|%s|%s|Pool/%s" % (f["name"], f["label"], name), path, "Pool.tla refutes %s; on the real common.c: %s" % (f["name"], r2["viols"][0][5] if r2["viols"] else "the code follows the counterexample in lock-step to the end"))
+        for k, df in enumerate(res.get("divfiles", [])[:4]):
+            rz = run_harness(exe, ["from", df, "3000", str(seed() + k), REPLAYS], env={"VERIF_PROP": "C02", "VERIF_PLAIN": "1"})
+            run.add("evaluations", 3000)
+            for v in rz["viols"]:
+                run.violation("%s|%s|Pool/%s continue" % (v[0], v[1], name), v[4], v[5])
+        os.unlink(sched)
 
 
 def main(tier, replay=None):
